@@ -96,11 +96,12 @@ def _finish(ex, env):
     # the watcher keeps running and every process ends eventually: let a still
     # running process exit now and give the watcher two more iterations
     env.exit_before_poll = 1
-    # (`to_watch` is a local of _watch: hand the still watched tasks to the
-    # new invocation the way _launch_task did)
+    # (`to_watch` is a local of _watch: the tasks the executor had handed to
+    # its watcher - and only those - are given to the new invocation)
     for t in list(ex._tasks.values()):
-        if 'proc' in t and t not in ex._watch_queue.items:
-            ex._watch_queue.put(t)
+        if 'proc' in t and t not in ex._watch_queue.items \
+                       and any(t is x for x in ex._watch_queue.seen):
+            ex._watch_queue.items.append(t)
     ex._term = X.CountdownEvent(2)
     C.run_sequential(X.CORO['_watch'](ex))
 
